@@ -228,6 +228,7 @@ def run(repo: Repo, tier: str, res: CheckResult, seed: int = 0) -> None:
     res.coverage["hole_kind_histogram"] = dict(sorted(kinds_hist.items()))
     ast_templater_structural(repo, res)
     captured_global_names(repo, res)
+    namespace_exclusion(repo, res)
     res.assumptions = list(ASSUMPTIONS)
 
     from .. import genprog
@@ -482,8 +483,9 @@ def _raises_unless_identifier(repo: Repo, m, fn: ast.FunctionDef, attr: str) -> 
 
 
 def sanitizer(repo: Repo, res: CheckResult) -> None:
-    """BuiltinNameSanitizer.sanitize: output alphabet is [A-Za-z_]\\w* : first char forced to ascii letter or '_', the
-    rest filtered by a \\W-removing regex."""
+    """BuiltinNameSanitizer.sanitize: the output is a valid identifier: first char forced to ascii letter or '_', every other
+    character kept only if it may continue an identifier (str.isidentifier, or an ASCII-only regex class -- the Unicode-aware
+    \\w is wider than the identifier alphabet)."""
     m = repo.mod("code_tools/name_sanitizer")
     ci = m.classes.get("BuiltinNameSanitizer")
     if ci is None or "sanitize" not in ci.methods:
@@ -514,9 +516,25 @@ def sanitizer(repo: Repo, res: CheckResult) -> None:
             if okr:
                 pat_name = norm(right.func.value).split(".")[-1]
                 pat = ci.attrs.get(pat_name)
+                # \w is WIDER than the identifier alphabet ('²', '①' are \w but not XID_Continue): the Unicode-aware class is
+                # accepted only together with re.ASCII; explicit ASCII classes are fine
+                ascii_flag = isinstance(pat, ast.Call) and any("ASCII" in norm(a) or norm(a) in ("re.A",) for a in list(pat.args[1:]) + [k.value for k in pat.keywords])
                 okp = isinstance(pat, ast.Call) and pat.args and isinstance(pat.args[0], ast.Constant) \
-                    and pat.args[0].value in (r"\W", r"[^\w]", r"[^A-Za-z0-9_]", r"[^a-zA-Z0-9_]")
+                    and (pat.args[0].value in (r"[^A-Za-z0-9_]", r"[^a-zA-Z0-9_]") or (pat.args[0].value in (r"\W", r"[^\w]") and ascii_flag))
                 if okp and _first_letter_safe(fn, v.left):
+                    if not is_ret:
+                        accepted_names.add(holder.targets[0].id)
+                    continue
+            # first_letter + "".join(c for c in ... if (<identifier start> + c).isidentifier())
+            if isinstance(right, ast.Call) and isinstance(right.func, ast.Attribute) and right.func.attr == "join" \
+                    and isinstance(right.func.value, ast.Constant) and right.func.value.value == "" and right.args \
+                    and isinstance(right.args[0], (ast.GeneratorExp, ast.ListComp)) and len(right.args[0].generators) == 1:
+                g = right.args[0].generators[0]
+                cv = norm(g.target)
+                keeps_char = norm(right.args[0].elt) == cv
+                tests = [norm(t).replace("'", '"') for t in g.ifs]
+                ident_test = any(t in (f'("_" + {cv}).isidentifier()', f'("a" + {cv}).isidentifier()') for t in tests)
+                if keeps_char and ident_test and _first_letter_safe(fn, v.left):
                     if not is_ret:
                         accepted_names.add(holder.targets[0].id)
                     continue
@@ -525,8 +543,9 @@ def sanitizer(repo: Repo, res: CheckResult) -> None:
     if bad is not None or not rets:
         res.add(Finding("C19", "SANITIZER.alphabet", m.rel, "BuiltinNameSanitizer.sanitize",
                         norm(bad.value) if bad is not None else "no return",
-                        "sanitizer no longer guarantees the output alphabet [A-Za-z_]\\w* (first character forced to an "
-                        "ascii letter or '_', remaining non-word characters removed)", fn.lineno))
+                        "sanitizer does not guarantee a valid identifier (first character forced to an ascii letter or '_', every "
+                        "other character kept only if it may continue an identifier; the Unicode-aware \\w also matches '²', '①' "
+                        "... which the parser rejects)", fn.lineno))
 
 
 def _first_letter_safe(fn: ast.FunctionDef, left: ast.expr) -> bool:
@@ -614,3 +633,56 @@ def captured_global_names(repo: Repo, res: CheckResult) -> None:
                         "locals of the closure maker (every namespace name, the closure name) and against the other globals: user-chosen "
                         "names that start with the prefix (functions `foo` and `g_foo` linked to one converter, a converter named "
                         "`g_coercer`) make the generated `name = g_name` read a local -- UnboundLocalError or the wrong function", fn.lineno))
+
+
+# categories of names a generated program binds; a name admitted into one category must be refused by the admission tests of
+# the categories it would capture (confirmed on the tree; `try_add_outer_constant` and `try_register_var` do not look at each
+# other -- outer constants vs. local variables is an observation of DESIGN 8.6, not a rule)
+NAMESPACE_MATRIX = {
+    "try_add_constant": {"_occupied", "_variables", "_outer_constants", "NAME_TO_BUILTIN"},
+    "try_add_outer_constant": {"_constants", "NAME_TO_BUILTIN"},
+    "try_register_var": {"_occupied", "_constants", "_variables", "NAME_TO_BUILTIN"},
+}
+
+
+def namespace_exclusion(repo: Repo, res: CheckResult) -> None:
+    """BuiltinCascadeNamespace decides which names the generators may bind. `all_constants` merges inner and outer constants
+    into ONE mapping and the variables live in the same function scope, so a name admitted twice binds one of the two objects
+    for both uses (a linked function named like a helper of the closure maker is replaced by the helper: the converter is
+    generated and fails, or calls the wrong object). Each admission test must therefore refuse a name already present in the
+    other categories. The tests are followed through helper methods of the class."""
+    m = repo.mod("code_tools/cascade_namespace")
+    ci = m.classes.get("BuiltinCascadeNamespace")
+    if ci is None:
+        raise AnalysisError("anchor vanished: BuiltinCascadeNamespace")
+
+    def tested(fn: ast.FunctionDef, pname: str, depth: int = 0) -> set:
+        out = set()
+        for c in ast.walk(fn):
+            if isinstance(c, ast.Compare) and len(c.ops) == 1 and isinstance(c.ops[0], (ast.In, ast.NotIn)) and norm(c.left) == pname:
+                r = c.comparators[0]
+                out.add(r.attr if isinstance(r, ast.Attribute) and norm(r.value) == "self" else norm(r))
+            if depth < 3 and isinstance(c, ast.Call) and isinstance(c.func, ast.Attribute) and norm(c.func.value) == "self" \
+                    and c.func.attr in ci.methods and c.func.attr not in NAMESPACE_MATRIX \
+                    and any(norm(a) == pname for a in c.args):
+                callee = ci.methods[c.func.attr]
+                cps = [a for a in func_params(callee) if a != "self"]
+                idx = [norm(a) for a in c.args].index(pname)
+                if idx < len(cps):
+                    out |= tested(callee, cps[idx], depth + 1)
+        return out
+    for mname, need in NAMESPACE_MATRIX.items():
+        fn = ci.methods.get(mname)
+        if fn is None:
+            raise AnalysisError(f"anchor vanished: BuiltinCascadeNamespace.{mname}")
+        pname = [a for a in func_params(fn) if a != "self"][0]
+        res.evaluated(f"namespace:{mname}", True)
+        # the refusal: the tests guard a `return False`
+        got = tested(fn, pname)
+        missing = sorted(need - got)
+        if missing:
+            res.add(Finding("C19", "NAMESPACE.admission-ignores-category", m.rel, f"BuiltinCascadeNamespace.{mname}", ", ".join(missing),
+                            f"`{mname}` admits a name without looking at {missing}: a user-derived name (a linked function, a destination "
+                            "class, a field id) equal to a name of that category is not mangled, the two objects share one binding "
+                            "in the generated program and one of them is used for both", fn.lineno))
+    res.count("NAMESPACE.admission-tests", len(NAMESPACE_MATRIX), 3)
